@@ -16,6 +16,40 @@ UTC = datetime.timezone.utc
 T0 = datetime.datetime(2000, 1, 1, tzinfo=UTC)
 
 
+class MuxBudget:
+    """Logical-step budget on EventMultiplexer.pop(): a dispatcher that keeps popping without ever awaiting (pure CPU,
+    invisible to the event loop, so no timeout can fire) exhausts it and is interrupted from the monitoring callback."""
+    TOOL = 3
+    LIMIT = 1_500_000
+    count = 0
+    installed = False
+
+    class Exhausted(Exception):
+        pass
+
+    @classmethod
+    def install(cls):
+        import sys
+        from basana.core import dispatcher
+        if cls.installed:
+            return
+        mon = sys.monitoring
+        try:
+            mon.use_tool_id(cls.TOOL, "vf-mux-budget")
+        except ValueError:
+            return
+
+        def on_line(c, line):
+            cls.count += 1
+            if cls.count > cls.LIMIT:
+                cls.count = 0
+                raise cls.Exhausted("EventMultiplexer.pop() executed more than 1.5 million lines in one scenario: the "
+                                    "dispatcher spins without awaiting")
+        mon.register_callback(cls.TOOL, mon.events.LINE, on_line)
+        mon.set_local_events(cls.TOOL, dispatcher.EventMultiplexer.pop.__code__, mon.events.LINE)
+        cls.installed = True
+
+
 class CallableObject:
     """An object with an async ``__call__``: a legitimate handler / job that has neither __name__ nor __qualname__."""
 
@@ -115,6 +149,18 @@ class BtRun:
                 super().__init__(when)
                 self.eid = eid
 
+        class Batch(Ev):
+            """An event type of the application's own that has a length (a batch of items), here an empty one."""
+
+            def __len__(self):
+                return 0
+
+        class CountingSource(event.FifoQueueEventSource):
+            """A source of the application's own that reports how many events it still holds."""
+
+            def __len__(self):
+                return len(self._queue)
+
         self.Ev = Ev
         eid = 0
         self.sources = []
@@ -125,7 +171,7 @@ class BtRun:
             for t in src["events"]:
                 eid += 1
                 tzs = sc.get("tz_minutes", [0])
-                evs.append(Ev(T(t, tzs[eid % len(tzs)]), eid))
+                evs.append((Batch if eid % 7 == 3 else Ev)(T(t, tzs[eid % len(tzs)]), eid))
                 self.events[eid] = (si, t)
             self.src_events[si] = [e.eid for e in evs]
             lists.append(evs)
@@ -149,6 +195,8 @@ class BtRun:
                 self.sources.append(fsrc)
             elif src.get("producer"):
                 self.sources.append(event.FifoQueueEventSource(producer=event.Producer(), events=evs))
+            elif si % 3 == 2:
+                self.sources.append(CountingSource(events=evs))
             else:
                 self.sources.append(event.FifoQueueEventSource(events=evs))
         self.next_eid = eid
@@ -305,6 +353,8 @@ class BtRun:
         loop = asyncio.new_event_loop()
         asyncio.set_event_loop(loop)
         f0 = logging.getLogRecordFactory()
+        MuxBudget.install()
+        MuxBudget.count = 0
         try:
             self.build()
             try:
